@@ -132,6 +132,39 @@ theorem oriented_grid_cells_closed (g : Grid2) (meanLen : Rat)
     simp only [Grid2.cellOFaces, List.map_map]; rfl
   rw [e]; exact this
 
+/-- Grid level, all together: on the oriented path of the model, for every cell the face normals
+    `(nx, ny) = tangent × (0,0,p)` with `p = planeSign`, the volume entry `V` of `cellVolumes` and the
+    first moments behind `cellCenters` satisfy the closed-cell, volume and centroid identities about every
+    reference point `o`. -/
+theorem oriented_grid_divergence (g : Grid2) (meanLen : Rat) (o : P2)
+    (hwf : ∀ c ∈ g.cells, ∀ e ∈ c, (g.iface e).1 < g.nodes.length ∧ (g.iface e).2.1 < g.nodes.length)
+    (h : g.isOriented meanLen = true) :
+    (geom2 g meanLen).cellVolumes
+        = g.cells.map (fun c => cellArea g.planeSign (tempCenter (g.cellOFaces c)) (g.cellOFaces c))
+    ∧ ∀ c ∈ g.cells,
+      let fs := g.cellOFaces c
+      let p := g.planeSign
+      let V := cellArea p (tempCenter fs) fs
+      (sumf (fun f => f.s * f.nx p) fs = 0 ∧ sumf (fun f => f.s * f.ny p) fs = 0)
+      ∧ 0 ≤ V
+      ∧ sumf (fun f => f.s * ((f.mx - o.x) * f.nx p + (f.my - o.y) * f.ny p)) fs = 2 * V
+      ∧ sumf (fun f => f.s * ((f.mx - o.x) * f.nx p + (f.my - o.y) * f.ny p) * (f.mx - o.x)) fs
+          = 3 * (cellMomX p (tempCenter fs) fs - V * o.x)
+      ∧ sumf (fun f => f.s * ((f.mx - o.x) * f.nx p + (f.my - o.y) * f.ny p) * (f.my - o.y)) fs
+          = 3 * (cellMomY p (tempCenter fs) fs - V * o.y) := by
+  constructor
+  · unfold geom2
+    rw [if_pos h]
+    rfl
+  · intro c hc fs p V
+    have hcl := oriented_grid_cells_closed g meanLen hwf h c hc
+    have hV : 0 ≤ V := by
+      have h' := h
+      simp only [Grid2.isOriented, Bool.and_eq_true, List.all_eq_true, decide_eq_true_eq] at h'
+      exact h'.2 V (List.mem_map.mpr ⟨c, hc, rfl⟩)
+    exact ⟨closed_cell p fs hcl, hV, area_identity p _ o fs hcl, (centroid_identity p _ o fs hcl).1,
+      (centroid_identity p _ o fs hcl).2⟩
+
 /-- Positivity: for a counter-clockwise convex cell (all signs +1, every node on the left of or on
     every face line, at least one strictly), every sub-triangle about the average of the face centres is
     positive, and so is the cell volume. -/
@@ -335,11 +368,75 @@ theorem tet_volume_identity_3d (p0 p1 p2 p3 tc o : P3)
       = 3 * cellVol3 tc (tetCell p0 p1 p2 p3) :=
   volume_identity_3d _ tc o (tet_paired p0 p1 p2 p3) (tet_planarStar p0 p1 p2 p3 hnd)
 
+/-- Centroid identity in 3-D: for a closed cell with planar (`NodesPlanar`), star-shaped, non-degenerate
+    faces, with face centres, cell volume `V` and first moment `M = V·tc + Σ tet_volume·¾·(sub_centroid − tc)`
+    exactly as computed (the cell centre is `M / V`):
+    Σ sign ((x_f − o)·n_f)(x_f − o) = 4·(M − V·o), for every reference point `o` and every `tc`.
+    (Proof: tensor identity Σ (w·n)(x·r) = V (w·r) by a fan of tetrahedra about the origin whose inner
+    faces cancel because the edges pair up.) -/
+theorem centroid_identity_3d (cell : Cell3) (tc o : P3) (hp : EdgePaired cell) (hpl : PlanarStar cell)
+    (hnp : NodesPlanar cell) :
+    sum3 (fun f => P3.smul (f.2 * ((faceCtr f.1).sub o).dot (faceN f.1)) ((faceCtr f.1).sub o)) cell
+      = P3.smul 4 ((cellMom3 tc cell).sub (P3.smul (cellVol3 tc cell) o)) := by
+  have hx := centroid_identity_3d_aux cell tc o ⟨1, 0, 0⟩ hp hpl hnp
+  have hy := centroid_identity_3d_aux cell tc o ⟨0, 1, 0⟩ hp hpl hnp
+  have hz := centroid_identity_3d_aux cell tc o ⟨0, 0, 1⟩ hp hpl hnp
+  ext
+  · rw [sum3_x]
+    simp only [P3.smul_x, P3.sub_x]
+    have e : ∀ v : P3, v.dot ⟨1, 0, 0⟩ = v.x := by intro v; simp [P3.dot]
+    simp only [e, P3.sub_x] at hx
+    rw [← hx]; apply sumf_congr; intro f _; ring
+  · rw [sum3_y]
+    simp only [P3.smul_y, P3.sub_y]
+    have e : ∀ v : P3, v.dot ⟨0, 1, 0⟩ = v.y := by intro v; simp [P3.dot]
+    simp only [e, P3.sub_y] at hy
+    rw [← hy]; apply sumf_congr; intro f _; ring
+  · rw [sum3_z]
+    simp only [P3.smul_z, P3.sub_z]
+    have e : ∀ v : P3, v.dot ⟨0, 0, 1⟩ = v.z := by intro v; simp [P3.dot]
+    simp only [e, P3.sub_z] at hz
+    rw [← hz]; apply sumf_congr; intro f _; ring
+
+/-- … in the form of the property, with the cell centre `cellCtr3` and the temporary centre the code uses:
+    Σ sign ((x_f − o)·n_f)(x_f − o) = 4·V·(c − o) when V ≠ 0. -/
+theorem centroid_identity_3d_div (cell : Cell3) (o : P3) (hp : EdgePaired cell) (hpl : PlanarStar cell)
+    (hnp : NodesPlanar cell) (hV : cellVol3 (tempCenter3 cell) cell ≠ 0) :
+    sum3 (fun f => P3.smul (f.2 * ((faceCtr f.1).sub o).dot (faceN f.1)) ((faceCtr f.1).sub o)) cell
+      = P3.smul (4 * cellVol3 (tempCenter3 cell) cell) ((cellCtr3 cell).sub o) := by
+  rw [centroid_identity_3d cell (tempCenter3 cell) o hp hpl hnp]
+  unfold cellCtr3 cellMom3
+  ext <;> simp <;> field_simp
+
+/-- Tetrahedron with non-degenerate faces: Σ sign ((x_f − o)·n_f)(x_f − o) = 4·(M − V·o). -/
+theorem tet_centroid_identity_3d (p0 p1 p2 p3 tc o : P3)
+    (hnd : ∀ f ∈ tetCell p0 p1 p2 p3, (faceN f.1).dot (faceN f.1) ≠ 0) :
+    sum3 (fun f => P3.smul (f.2 * ((faceCtr f.1).sub o).dot (faceN f.1)) ((faceCtr f.1).sub o)) (tetCell p0 p1 p2 p3)
+      = P3.smul 4 ((cellMom3 tc (tetCell p0 p1 p2 p3)).sub (P3.smul (cellVol3 tc (tetCell p0 p1 p2 p3)) o)) :=
+  centroid_identity_3d _ tc o (tet_paired p0 p1 p2 p3) (tet_planarStar p0 p1 p2 p3 hnd) (tet_nodesPlanar p0 p1 p2 p3)
+
+/-- The hexahedron `[x0,x1]×[y0,y1]×[z0,z1]` as built by `TensorGrid._create_3d_grid` (node order and signs of
+    the constructor) is a closed surface with planar star-shaped faces, and its computed volume is the product
+    of the extents, about whatever point the sub-tetrahedra are taken. -/
+theorem cart3_cell_volume (x0 x1 y0 y1 z0 z1 : Rat) (tc : P3) (hx : x0 ≠ x1) (hy : y0 ≠ y1) (hz : z0 ≠ z1) :
+    EdgePaired (tensorCell3 x0 x1 y0 y1 z0 z1) ∧ PlanarStar (tensorCell3 x0 x1 y0 y1 z0 z1)
+    ∧ cellVol3 tc (tensorCell3 x0 x1 y0 y1 z0 z1) = (x1 - x0) * (y1 - y0) * (z1 - z0) :=
+  ⟨hex_paired x0 x1 y0 y1 z0 z1, hex_planarStar x0 x1 y0 y1 z0 z1 hx hy hz,
+   cart3_cell_volume_aux x0 x1 y0 y1 z0 z1 tc hx hy hz⟩
+
+/-- `cart_volumes_sum` in 3-D: the computed cell volumes of a tensor grid with distinct consecutive node
+    coordinates sum to the product of the extents. -/
+theorem cart_volumes_sum_3d (x0 y0 z0 : Rat) (xs ys zs : List Rat)
+    (hxs : ∀ p ∈ pairs (x0 :: xs), p.1 ≠ p.2) (hys : ∀ p ∈ pairs (y0 :: ys), p.1 ≠ p.2)
+    (hzs : ∀ p ∈ pairs (z0 :: zs), p.1 ≠ p.2) :
+    tensorVolumeSum3 (x0 :: xs) (y0 :: ys) (z0 :: zs)
+      = (lastD xs x0 - x0) * (lastD ys y0 - y0) * (lastD zs z0 - z0) :=
+  cart_volumes_sum_3d_aux x0 y0 z0 xs ys zs hxs hys hzs
+
 /-
 Not proved (stated for the record; checked by the oracle on the real code only):
-* centroid identity in 3-D: Σ sign ((x_f−o)·n_f)(x_f−o) = 4·V·(c−o) for planar faces;
 * the identities on the legacy (non-oriented) 2-D path for convex cells;
-* Σ volumes = Π extents for the 3-D tensor constructor.
+* positivity of the sub-tetrahedra / cell volume in 3-D for convex cells.
 -/
 
 /-! ## non-vacuity: concrete instances -/
@@ -366,6 +463,10 @@ example : lineFlip 0 (1 / 2) 1 = -1 ∧ lineFlip 1 (1 / 2) 1 = 1 := by decide +k
 example : (dirEdges (tetCell ⟨0, 0, 0⟩ ⟨1, 0, 0⟩ ⟨0, 1, 0⟩ ⟨0, 0, 1⟩)).Perm
     ((dirEdges (tetCell ⟨0, 0, 0⟩ ⟨1, 0, 0⟩ ⟨0, 1, 0⟩ ⟨0, 0, 1⟩)).map Prod.swap) := by decide +kernel
 example : ∀ f ∈ tetCell ⟨0, 0, 0⟩ ⟨1, 0, 0⟩ ⟨0, 1, 0⟩ ⟨0, 0, 1⟩, (faceN f.1).dot (faceN f.1) ≠ 0 := by decide +kernel
+example : tensorVolumeSum3 [0, 1, 3] [0, 2] [1, 3 / 2] = 3 := by decide +kernel
+example : ∀ p ∈ pairs [0, 1, 3], p.1 ≠ p.2 := by decide +kernel
+example : NodesPlanar (tetCell ⟨0, 0, 0⟩ ⟨1, 0, 0⟩ ⟨0, 1, 0⟩ ⟨0, 0, 1⟩) := tet_nodesPlanar _ _ _ _
+example : cellCtr3 (tetCell ⟨0, 0, 0⟩ ⟨1, 0, 0⟩ ⟨0, 1, 0⟩ ⟨0, 0, 1⟩) = ⟨1 / 4, 1 / 4, 1 / 4⟩ := by decide +kernel
 example : cellVol3 (tempCenter3 (tetCell ⟨0, 0, 0⟩ ⟨1, 0, 0⟩ ⟨0, 1, 0⟩ ⟨0, 0, 1⟩)) (tetCell ⟨0, 0, 0⟩ ⟨1, 0, 0⟩ ⟨0, 1, 0⟩ ⟨0, 0, 1⟩) = 1 / 6 := by
   decide +kernel
 
